@@ -8,7 +8,9 @@ pub mod c02;
 pub mod c03;
 pub mod c04;
 pub mod c05;
+pub mod c06;
 pub mod c07;
+pub mod c08;
 pub mod c10;
 pub mod c11;
 pub mod c12;
@@ -28,10 +30,15 @@ pub struct PropDef {
     pub needed_probes: &'static [&'static str],
     pub quick_runs: u64,
     pub thorough_runs: u64,
+    /// runs are generated in blocks of this size from the same PRNG seed (the generator uses
+    /// `index % block` to enumerate a dimension, e.g. fault positions, over one program)
+    pub block: u64,
+    /// runtime flavours of hsim this property is run on
+    pub flavours: &'static [&'static str],
 }
 
 pub fn all() -> Vec<PropDef> {
-    vec![c01::def(), c02::def(), c03::def(), c04::def(), c05::def(), c07::def(), c10::def(), c11::def(), c12::def(), c14::def(), c15::def(), c17::def()]
+    vec![c01::def(), c02::def(), c03::def(), c04::def(), c05::def(), c06::def(), c07::def(), c08::def(), c10::def(), c11::def(), c12::def(), c14::def(), c15::def(), c17::def()]
 }
 
 pub fn get(id: &str) -> Option<PropDef> {
